@@ -1,6 +1,6 @@
 ------------------------------- MODULE MC_QL -------------------------------
 (* Model-checking configurations of QueryLifecycle: the scenario universe.  *)
-EXTENDS QueryLifecycle
+EXTENDS QueryLifecycle, Json
 
 P(k) == [k |-> k, n |-> 0]
 PN(k, n) == [k |-> k, n |-> n]
@@ -49,4 +49,8 @@ QStreamConfigs == { c \in StreamConfigs : c.wbreak <= 3 /\ Len(c.plan) <= 2 }
 WellFormed(s) == \A i \in 1..Len(s) : s[i].k \notin {"bad", "pong", "cut", "trunc", "garbage", "eosEarly", "exc"}
 CancelConfigs == { c \in QSelectConfigs \cup InsertConfigs \cup QStreamConfigs :
                      WellFormed(c.script) /\ c.rfail = 0 /\ c.wbreak = -1 /\ \A i \in 1..Len(c.plan) : c.plan[i].ret # "err" }
+
+\* behaviour generation: print the scenario and its schedule when a behaviour is complete
+GenConfigs == QSelectConfigs \cup InsertConfigs \cup QStreamConfigs
+EmitHist == phase = "next" => PrintT(ToJson([tag |-> "BEH", cfg |-> cfg, hist |-> hist]))
 =============================================================================
